@@ -105,25 +105,31 @@ def run_walk(tid, inputs, seed):
                     h.data_values[20].value = inp["x"]
             elif k == "Trigger":
                 h.trigger_collection_events([CID[inp["c"]]])
+            elif k == "TriggerMany":
+                h.trigger_collection_events([CID[c] for c in inp["cs"]])
             else:
                 sfn, fn, body = body_of(inp)
                 ep.link.feed(hsmsrun.data_frame(sfn, fn, True, sysid, body))
             s.settle()
-            for f in ep.link.take_frames():
-                if f.get("stype") != 0:
-                    continue
-                if f["system"] == sysid and k not in ("Set", "Trigger"):
-                    if f["f"] == 0:
-                        obs["abort"] = True
-                    elif f["s"] == 2:
-                        obs["ack"] = e5.plain(e5.decode_all(f["body"]))
-                    elif f["s"] == 6 and f["f"] == 16:
-                        obs["rpt"] = [rpt_list(e5.decode_all(f["body"]))]
-                elif f["s"] == 6 and f["f"] == 11:
-                    obs["sent"] = True
-                    obs["rpt"] = [rpt_list(e5.decode_all(f["body"]))]
-                    ep.link.feed(hsmsrun.data_frame(6, 12, False, f["system"], e5.encode(e5.B(0))))
-                    s.settle()
+            for _round in range(8):
+                frames_now = ep.link.take_frames()
+                if not frames_now:
+                    break
+                for f in frames_now:
+                    if f.get("stype") != 0:
+                        continue
+                    if f["system"] == sysid and k not in ("Set", "Trigger", "TriggerMany"):
+                        if f["f"] == 0:
+                            obs["abort"] = True
+                        elif f["s"] == 2:
+                            obs["ack"] = e5.plain(e5.decode_all(f["body"]))
+                        elif f["s"] == 6 and f["f"] == 16:
+                            obs["rpt"] = [rpt_list(e5.decode_all(f["body"]))]
+                    elif f["s"] == 6 and f["f"] == 11:
+                        obs["sent"] = True
+                        obs["rpt"] = (obs["rpt"] if k == "TriggerMany" else []) + [rpt_list(e5.decode_all(f["body"]))]
+                        ep.link.feed(hsmsrun.data_frame(6, 12, False, f["system"], e5.encode(e5.B(0))))
+                        s.settle()
             if k == "Request" and not obs["rpt"] and not obs["abort"]:
                 obs["abort"] = True   # no S6F16 at all
             obs["reports"], obs["links"] = tables(h)
